@@ -579,7 +579,7 @@ func runSource(x *exec) {
 	g := &srcGen{co: co, r: c.Rand("source")}
 	total := x.slice(c.Pick(20000, 1000000))
 	if x.variant != "plain" && c.Tier == vp.Thorough {
-		total /= 4 // the sanitizer builds are 3-10x slower; a quarter of the inputs keeps the tier within its time budget
+		total /= 10 // the sanitizer builds are 3-10x slower; a tenth of the inputs keeps the tier within its time budget
 	}
 	n := total / c.NB
 	for i := 0; i < n; i++ {
